@@ -119,14 +119,12 @@ def evaluate(e, world, env: dict, ienv: dict | None = None, default_pop: str = T
                     raise Undefined(f"free variable {v.name}")
                 val = env[v.name]
             else:
-                if v.name in bound:
+                if v.name in bound and not v.star:
                     raise Undefined("ill-scoped")
                 val = 1 if v.star else 0
             do = {}
             if isinstance(v, dsl.CounterfactualVariable):
                 for i in v.interventions:
-                    if i.star and i.name in bound:
-                        raise Undefined("ill-scoped")
                     do[i.name] = 1 if i.star else ienv.get(i.name, 0)
             return v.name, tuple(sorted(do.items())), val
 
@@ -164,3 +162,95 @@ def evaluate(e, world, env: dict, ienv: dict | None = None, default_pop: str = T
             raise Undefined("conditioning on a null event")
         return num / den
     raise Undefined(f"unknown expression {type(e).__name__}")
+
+
+class ExactL3:
+    """Concrete functional model: explicit response-type distributions, brute-force enumeration.
+
+    P(r_V | u) is recovered from the moment parameters mu|owner|V|u|S by Moebius inversion;
+    every probability (single- or cross-world) is the total weight of the (u, r) pairs whose
+    *evaluated* structural equations satisfy all atoms.
+    """
+
+    def __init__(self, g: GSpec, params: dict, differs: dict | None = None):
+        self.g = g
+        self.params = params
+        self.card = {n: 2 for n in g.nodes}
+        self.differs = {k: set(v) for k, v in (differs or {}).items()}
+        self._tab = {}
+
+    def _mu(self, owner, v, u_vals, S):
+        if not S:
+            return Fr(1)
+        nm = "mu|%s|%s|%s|%s" % (owner, v, "".join(map(str, u_vals)), ",".join(map(str, S)))
+        if nm in self.params:
+            return self.params[nm]
+        return Fr(1, 2) ** len(S)  # default: independent fair responses
+
+    def _rt_prob(self, pop, v, r: tuple, u_vals):
+        owner = pop if (pop != TARGET and v in self.differs.get(pop, ())) else TARGET
+        ones = [i for i, b in enumerate(r) if b]
+        zeros = [i for i, b in enumerate(r) if not b]
+        tot = Fr(0)
+        for k in range(len(zeros) + 1):
+            for T in itt.combinations(zeros, k):
+                tot += (-1) ** k * self._mu(owner, v, u_vals, tuple(sorted(ones + list(T))))
+        return tot
+
+    def _lam(self, i, val):
+        p = self.params.get(f"lam|{i}|0", Fr(1, 2))
+        return p if val == 0 else 1 - p
+
+    def table(self, pop):
+        """List of (weight, r: {node: response tuple}) over all (u, r)."""
+        if pop in self._tab:
+            return self._tab[pop]
+        g = self.g
+        nodes = list(g.nodes)
+        lat = list(range(len(g.bi)))
+        rows = []
+        rts = [list(itt.product((0, 1), repeat=2 ** len(g.parents(n)))) for n in nodes]
+        for us in itt.product((0, 1), repeat=len(lat)):
+            wu = Fr(1)
+            for i in lat:
+                wu *= self._lam(i, us[i])
+            per_node = []
+            for n, choices in zip(nodes, rts):
+                uv = tuple(us[i] for i in lat if n in g.bi[i])
+                per_node.append([(r, self._rt_prob(pop, n, r, uv)) for r in choices])
+            for combo in itt.product(*per_node):
+                w = wu
+                for _, p in combo:
+                    w *= p
+                rows.append((w, {n: r for n, (r, _) in zip(nodes, combo)}))
+        self._tab[pop] = rows
+        return rows
+
+    def _val(self, r, n, do, memo):
+        if n in do:
+            return do[n]
+        if n in memo:
+            return memo[n]
+        idx = 0
+        for p in self.g.parents(n):
+            idx = idx * 2 + self._val(r, p, do, memo)
+        memo[n] = r[n][idx]
+        return memo[n]
+
+    def prob_cw(self, pop, atoms) -> Fr:
+        tot = Fr(0)
+        for w, r in self.table(pop):
+            memos = {}
+            ok = True
+            for n, do, v in atoms:
+                d = dict(do)
+                key = tuple(sorted(d.items()))
+                if self._val(r, n, d, memos.setdefault(key, {})) != v:
+                    ok = False
+                    break
+            if ok:
+                tot += w
+        return tot
+
+    def prob(self, pop, do: dict, assign: dict) -> Fr:
+        return self.prob_cw(pop, [(n, do, v) for n, v in assign.items()])
